@@ -35,9 +35,10 @@ type keySys struct {
 	originDate string
 	lastObs    string
 	// store: "" none, "ttl" store that expires records itself, "lazy" store that hands back expired records
-	store   string
-	st      *env.FaultStore
-	memLost bool // after a restart a refetch is always acceptable instead of a hit
+	store        string
+	st           *env.FaultStore
+	memLost      bool // after a restart a refetch is always acceptable instead of a hit
+	storedHadAge bool
 }
 
 type keyEvent struct {
@@ -46,6 +47,7 @@ type keyEvent struct {
 	Ans  string // cacheable | uncacheable | error
 	T    int
 	D    int64
+	Age  string // Age header of this answer ("" = the system's originAge)
 }
 
 func (s *keySys) NumEvents() int          { return len(s.events) }
@@ -65,6 +67,7 @@ func (s *keySys) Reset() {
 	s.spec = oracle.Entry{P: s.P}
 	s.serial = 0
 	s.memLost = false
+	s.storedHadAge = false
 	s.e.Events()
 	s.e.Respond = func(oc *env.OriginCall) env.OriginResp {
 		switch s.answer.Ans {
@@ -74,8 +77,8 @@ func (s *keySys) Reset() {
 				r.Header.Set("Cache-Control", fmt.Sprintf("public, s-maxage=%d, max-age=1000", s.answer.T))
 			}
 			r.Header.Set("ETag", `W/"coarse"`) // a coarse validator: the same for every generation of the body
-			if s.originAge != "" {
-				r.Header.Set("Age", s.originAge)
+			if a := s.ageOf(s.answer); a != "" {
+				r.Header.Set("Age", a)
 			}
 			if s.originDate != "" {
 				skew, _ := strconv.ParseInt(s.originDate, 10, 64)
@@ -90,6 +93,13 @@ func (s *keySys) Reset() {
 			return env.OriginResp{Err: env.ProxyError(fmt.Errorf("refused"))}
 		}
 	}
+}
+
+func (s *keySys) ageOf(e keyEvent) string {
+	if e.Age != "" {
+		return e.Age
+	}
+	return s.originAge
 }
 
 func (s *keySys) Apply(ev int) (string, string, string) {
@@ -117,8 +127,8 @@ func (s *keySys) Apply(ev int) (string, string, string) {
 	contacts := len(an.Reqs["r"].Calls)
 	ser, _, _, _, _, _ := env.ParseSelf(r.Body)
 	oage := int64(0)
-	if s.originAge != "" {
-		oage, _ = strconv.ParseInt(s.originAge, 10, 64)
+	if a := s.ageOf(e); a != "" {
+		oage, _ = strconv.ParseInt(a, 10, 64)
 	}
 	ans := oracle.Answer{Cacheable: e.Ans == "cacheable", T: int64(e.T) - oage, Fail: e.Ans == "error" || e.Ans == "panic", Serial: "new"}
 	if s.memLost {
@@ -171,15 +181,19 @@ func (s *keySys) Apply(ev int) (string, string, string) {
 	if ser != serial {
 		return obs, "wrong-body-served", fmt.Sprintf("served body serial %s, specification says %s (label %s)", ser, serial, label)
 	}
+	if contacts > 0 && label == "fetching" && e.Ans == "cacheable" {
+		s.storedHadAge = s.ageOf(e) != "" // the response stored now: did the origin send an Age of its own?
+	}
 	if label == "hit" {
 		want := ""
-		if age+oage > 0 {
-			want = strconv.FormatInt(age+oage, 10)
+		if age > 0 {
+			want = strconv.FormatInt(age, 10)
 		}
-		if s.originAge == "" && r.Age != want {
-			return obs, "age-" + r.Age + "-expected-" + want, fmt.Sprintf("Age header %q on a hit %d s after the fetch", r.Age, age)
+		// specified only when the stored response carried no Age of its own
+		if !s.storedHadAge && r.Age != want {
+			return obs, "age-" + r.Age + "-expected-" + want, fmt.Sprintf("Age header %q on a hit %d s after the fetch of a response that carried no Age", r.Age, age)
 		}
-	} else if r.Age != "" && s.originAge == "" {
+	} else if r.Age != "" && s.ageOf(e) == "" {
 		return obs, "age-on-non-hit", fmt.Sprintf("Age %q on a %s response", r.Age, label)
 	}
 	return obs, "", ""
